@@ -201,3 +201,15 @@ reg('C12',
     'stereo elements are covered through the corpus and templates with up to 4 labels only.',
     'complete enumeration of neighbour permutations and bounded exhaustive enumeration of spellings (choice-point exploration) vs parity and RDKit',
     'DESIGN.md s5 C12')
+
+reg('C15',
+    'Reactions are assembled with known ground truth: reactant sets of 1-3 small molecules and multi-component salts; products = the reactants under '
+    'every single edit and (stride) every compatible pair of edits from {bond order change, cleavage, formation, charge change, radical toggle} '
+    '(0 edits = identical sides), with and without a reagent, plus empty-role shapes. For each: the canonical string/hash/== under every permutation '
+    'inside every role; smiles(str(r)) restores roles and per-role molecule multisets incl. fragment grouping and radical blocks and is stable; the '
+    'condensed graph marks exactly the edited atoms and bonds with the recorded (before, after) orders, charges and radical states, has an empty '
+    'centre for identical sides, and its string is invariant under consistent GEN renumberings. A second stage enumerates role counts {0,1,2}^3 with '
+    'radicals and salts in every role through the SMILES round trip.',
+    'Trusted: the recorded edit list as ground truth. Reactions are built from 10 base molecules and 3 salts; larger systems are outside the bound.',
+    'bounded exhaustive enumeration of reactions with constructed ground truth x role orders x renumberings on the real implementation',
+    'DESIGN.md s5 C15')
